@@ -254,6 +254,65 @@ def check_case(ctx, lm, core, pool_cls, tok_cls, c, reqs):
         ctx.violate(f"raises.{type(e).__name__}", f"get_amounts / new_position / close_position raised {type(e).__name__} where get_liquidity answered {L}", rep)
 
 
+def market_stream(ctx: Ctx, rng, n):
+    """the same no-over-spend clause one level up, through the market's own entry points (UniLpMarket.add_liquidity / add_liquidity_by_tick on
+    a real broker wallet): whatever is offered — a fraction of the balance, the whole balance, exactly 0, or nothing (None = the balance) —
+    the wallet never gives more of a token than was offered, and the amounts the call reports are what left the wallet"""
+    for _ in range(n):
+        w = U.World(rng)
+        sp = w.pool.tick_spacing
+        bb, qb = w.broker.get_token_balance(w.pool.base_token), w.broker.get_token_balance(w.pool.quote_token)
+        lo = w.tick + rng.randint(-40, 12) * sp
+        up = lo + rng.randint(1, 50) * sp
+        regime = "below" if w.tick < lo else ("above" if w.tick >= up else "inside")
+
+        def offer(bal):
+            k = rng.random()
+            if k < 0.2:
+                return None, "none"
+            if k < 0.4:
+                return Decimal(0), "zero"
+            if k < 0.5:
+                return 0, "int-zero"
+            return bal * Decimal(rng.choice(("0.1", "0.5", "1"))), "amount"
+        (bo, bk), (qo, qk) = offer(bb), offer(qb)
+        via = rng.choice(("by_tick", "by_price", "by_price_kw"))
+        market_case(ctx, w, lo, up, bo, qo, via, f"{regime}:{bk}/{qk}")
+
+
+def market_case(ctx, w, lo, up, bo, qo, via, tag):
+    bb, qb = w.broker.get_token_balance(w.pool.base_token), w.broker.get_token_balance(w.pool.quote_token)
+    regime = tag.split(":")[0]
+    if True:
+        fee = {"0.0001": 0.01, "0.0005": 0.05, "0.003": 0.3, "0.01": 1}.get(str(Decimal(w.pool.fee_rate).normalize()), None)
+        rep = {"kind": "market", "pool": U.pool_json(w.pool), "fee": fee, "tick": w.tick, "lower": lo, "upper": up, "base": None if bo is None else str(bo),
+               "quote": None if qo is None else str(qo), "via": via, "base_balance": str(bb), "quote_balance": str(qb), "tag": tag,
+               "int_zero": [isinstance(bo, int), isinstance(qo, int)]}
+        try:
+            if via == "by_tick":
+                r = w.market.add_liquidity_by_tick(lo, up, bo, qo)
+            else:
+                p1, p2 = w.market.tick_to_price(lo), w.market.tick_to_price(up)
+                r = w.market.add_liquidity(min(p1, p2), max(p1, p2), qo, bo) if via == "by_price" else \
+                    w.market.add_liquidity(min(p1, p2), max(p1, p2), quote_max_amount=qo, base_max_amount=bo)
+            out = "ok"
+        except Exception as e:  # noqa: BLE001   (a refusal moves nothing: C04's subject; here only the accepted calls are judged)
+            r, out = None, type(e).__name__
+        ctx.case(f"market:{via}:{tag}:{out}", rep)
+        if r is None:
+            return
+        sb = Fraction(bb) - Fraction(w.broker.get_token_balance(w.pool.base_token))
+        sq = Fraction(qb) - Fraction(w.broker.get_token_balance(w.pool.quote_token))
+        for name, spent, offered, bal, reported in (("base", sb, bo, bb, r[1]), ("quote", sq, qo, qb, r[2])):
+            cap = Fraction(bal) if offered is None else Fraction(offered)
+            if spent < 0 or spent > cap:
+                ctx.violate(f"market.add.overspend.{name}", f"add_liquidity{'_by_tick' if via == 'by_tick' else ''}([{lo},{up}], price tick {w.tick}: {regime}) was "
+                            f"offered {offered if offered is not None else 'nothing (= the balance ' + str(bal) + ')'} {name} and took {float(spent)} "
+                            f"from the wallet (balance {bal})", rep)
+            elif Fraction(Decimal(reported)) != spent and abs(Fraction(Decimal(reported)) - spent) > Fraction(1, 10 ** 5) * max(spent, 1):
+                ctx.violate(f"market.add.reported.{name}", f"the call reports {reported} {name} used, the wallet gave {float(spent)}", rep)
+
+
 def run(ctx: Ctx):
     from demeter.uniswap import liquitidy_math as lm
     from demeter.uniswap import core
@@ -268,6 +327,7 @@ def run(ctx: Ctx):
         c = gen_case(ctx.rng, g, "magnitude" if i % 8 == 7 else "random")
         check_case(ctx, lm, core, UniV3Pool, TokenInfo, c, reqs)
     purity_stream(ctx, lm, core, UniV3Pool, TokenInfo, ctx.rng, ctx.scale(150, 5000))
+    market_stream(ctx, ctx.rng, ctx.scale(400, 10000))
     ctx.impl_traces = n
     if ctx.driver_ok:
         out = driver_batch([r[2] for r in reqs])
@@ -285,6 +345,17 @@ def replay(ctx: Ctx, case) -> bool:
     from demeter.uniswap import core
     from demeter.uniswap import UniV3Pool
     from demeter import TokenInfo
+    if case.get("kind") == "market":
+        import random
+        sub = Ctx(ctx.prop, ctx.tier, ctx.seed, False)
+        pj = case["pool"]
+        w = U.World(random.Random(0), pool_spec=(pj["d0"], pj["d1"], pj["q0"]), fee=case.get("fee"), tick=case["tick"],
+                    balances=(Decimal(case["base_balance"]), Decimal(case["quote_balance"])))
+
+        def amt(x, is_int):
+            return None if x is None else (int(Decimal(x)) if is_int else Decimal(x))
+        market_case(sub, w, case["lower"], case["upper"], amt(case["base"], case["int_zero"][0]), amt(case["quote"], case["int_zero"][1]), case["via"], case["tag"])
+        return not sub.violations
     if case.get("kind") == "purity":
         # the question and the (up to 12) questions asked before it, in the recorded order
         sub = Ctx(ctx.prop, ctx.tier, ctx.seed, False)
